@@ -270,7 +270,18 @@ func (e *Enc) autoInvariants(fr *frame, li *loopInfo, subst map[ssa.Value]ssa.Va
 				}
 				return c.Name + "@0"
 			}
-			out = append(out, sImp(sNot(sEq(rm.m, "0")), sAnd(sEq(app("select", get(d), rm.m), rm.dom0), sEq(app("select", get(vcomp), rm.m), rm.val0), sEq(app("select", get(l), rm.m), rm.len0))))
+			if e.opt("rangedelete") && loopDeletes(li, rm.mt) && e.curIterHeap != "" {
+				// visited keys may have been deleted; keys not yet reached are all still there
+				ks := e.W.sortOf(rm.mt.Key())
+				dom := app("select", get(d), rm.m)
+				pos := app("select", e.curIterHeap, rm.it)
+				out = append(out, sImp(sNot(sEq(rm.m, "0")), sAnd(
+					fmt.Sprintf("(forall ((k %s)) (! (=> (select %s k) (select %s k)) :pattern ((select %s k))))", ks, dom, rm.dom0, dom),
+					fmt.Sprintf("(forall ((k %s)) (! (=> (and (select %s k) (>= (%s %s k) %s)) (select %s k)) :pattern ((select %s k))))", ks, rm.dom0, rm.ri, rm.it, pos, dom, dom),
+					sEq(app("select", get(vcomp), rm.m), rm.val0))))
+			} else {
+				out = append(out, sImp(sNot(sEq(rm.m, "0")), sAnd(sEq(app("select", get(d), rm.m), rm.dom0), sEq(app("select", get(vcomp), rm.m), rm.val0), sEq(app("select", get(l), rm.m), rm.len0))))
+			}
 		}
 	}
 	if rm := e.headerRange(li); rm != nil {
@@ -743,7 +754,7 @@ func (e *Enc) encodeInstr(fr *frame, b *ssa.BasicBlock, idx int, in ssa.Instruct
 	case *ssa.Call:
 		if bi, isB := x.Call.Value.(*ssa.Builtin); isB && bi.Name() == "delete" {
 			if mt, ok := x.Call.Args[0].Type().Underlying().(*types.Map); ok {
-				e.protectRange(fr, st, b, mt, e.term(st, x.Call.Args[0]), x.Pos())
+				e.protectRangeDelete(fr, st, b, mt, e.term(st, x.Call.Args[0]), e.asTerm(e.val(x.Call.Args[1])), x.Pos())
 			}
 		}
 		e.encodeCall(fr, st, x, &x.Call, x)
@@ -784,7 +795,21 @@ func (e *Enc) encodeInstr(fr *frame, b *ssa.BasicBlock, idx int, in ssa.Instruct
 		e.note("channel send (not modelled)")
 	case *ssa.Select:
 		e.note("select (not modelled)")
+		var chans []string
+		for _, stt := range x.States {
+			chans = append(chans, e.term(st, stt.Chan))
+		}
 		e.havocAll(st, "select")
+		if g := e.P.reg.Ghosts["selWait"]; g != nil {
+			// built-in ghost: the channels the last select statement waited on, by case index
+			c := e.ghostComp(g)
+			cur := e.heapVar(st, c)
+			for i, ch := range chans {
+				cur = app("store", cur, fmt.Sprint(i), ch)
+			}
+			nv := e.newHeapVersion(st, c)
+			e.assert(sEq(nv, cur))
+		}
 		sv := e.freshVal(st, x.Type(), "select")
 		if len(sv.Tup) > 0 && sv.Tup[0].T != "" {
 			// the index of the chosen case
@@ -1396,6 +1421,9 @@ func (e *Enc) mapRangeExact(fr *frame, rng *ssa.Range, mt *types.Map) bool {
 						if bi, isB := c.Call.Value.(*ssa.Builtin); isB && (bi.Name() == "delete" || bi.Name() == "len" || bi.Name() == "append" || bi.Name() == "cap" || bi.Name() == "copy") {
 							continue
 						}
+						if e.callLeavesComp(fr, &c.Call, d.Name) {
+							continue // a call whose contract's frame excludes this map type's key sets
+						}
 						return false
 					case *ssa.Go, *ssa.Defer, *ssa.Select:
 						return false
@@ -1423,6 +1451,73 @@ func (e *Enc) protectRange(fr *frame, st *bstate, b *ssa.BasicBlock, mt *types.M
 			e.oblige(st, "range-stable", e.anchor(pos, "map update during range"), sNot(sEq(m, rm.m)), pos)
 		}
 	}
+}
+
+// protectRangeDelete: deleting from the ranged map itself is allowed for keys the iteration
+// has already produced (the current one included): per the Go specification the remaining
+// iteration is unaffected.
+func (e *Enc) protectRangeDelete(fr *frame, st *bstate, b *ssa.BasicBlock, mt *types.Map, m, key string, pos token.Pos) {
+	if !e.opt("rangedelete") {
+		// default: a loop must not touch the map it ranges over at all
+		e.protectRange(fr, st, b, mt, m, pos)
+		return
+	}
+	for li, rngs := range e.protected {
+		if !li.body[b] {
+			continue
+		}
+		for _, rng := range rngs {
+			rm := e.ranges[rng]
+			if rm == nil || !types.Identical(rm.mt, mt) {
+				continue
+			}
+			cur := app("select", e.heapVar(st, e.iterComp()), rm.it)
+			e.oblige(st, "range-stable", e.anchor(pos, "delete during range"), sOr(sNot(sEq(m, rm.m)), app("<", app(rm.ri, rm.it, key), cur)), pos)
+		}
+	}
+}
+
+// loopDeletes: the loop contains a delete on a map of type mt.
+func loopDeletes(li *loopInfo, mt *types.Map) bool {
+	for b := range li.body {
+		for _, in := range b.Instrs {
+			if c, ok := in.(*ssa.Call); ok {
+				if bi, isB := c.Call.Value.(*ssa.Builtin); isB && bi.Name() == "delete" {
+					if t, ok := c.Call.Args[0].Type().Underlying().(*types.Map); ok && types.Identical(t, mt) {
+						return true
+					}
+				}
+			}
+		}
+	}
+	return false
+}
+
+// callLeavesComp: the call has a contract with a declared frame that does not contain comp.
+func (e *Enc) callLeavesComp(fr *frame, call *ssa.CallCommon, comp string) bool {
+	var c *Contract
+	if call.IsInvoke() {
+		c = e.P.reg.Contracts[ifaceMethodKey(call.Value.Type(), call.Method)]
+	} else if callee := call.StaticCallee(); callee != nil {
+		c = e.P.contractFor(callee)
+	}
+	if c == nil || !c.HasMod {
+		return false
+	}
+	for _, m := range c.Modifies {
+		if strings.HasPrefix(m, "onlyfresh(") {
+			return false
+		}
+		if i := strings.Index(m, "@"); i >= 0 {
+			m = strings.TrimSpace(m[:i])
+		}
+		for _, cn := range e.resolveCompSpecPkg(m, c.Pkg) {
+			if cn == comp {
+				return false
+			}
+		}
+	}
+	return true
 }
 
 // encodeRange sets up the ghost enumeration of a map's keys: a duplicate-free
